@@ -62,8 +62,10 @@ def tlen(t, sigw):
         return t[3]
     if k == "cat":
         return sum(tlen(p, sigw) for p in t[1])
-    if k == "arr" or k == "sw":
+    if k == "arr":
         return max([tlen(p, sigw) for p in t[1]] + [0])
+    if k == "sw":
+        return t[3] - t[2]
     raise ValueError(k)
 
 
@@ -82,7 +84,7 @@ def coq_tgt(t, sigw):
     if k == "arr":
         return f"(TSwitch {tlen(t, sigw)} [" + "; ".join(coq_tgt(p, sigw) for p in t[1]) + "])"
     if k == "sw":   # as_value() of an array, sliced: Slice(SwitchValue)
-        inner = f"(TSwitch {tlen(t, sigw)} [" + "; ".join(coq_tgt(p, sigw) for p in t[1]) + "])"
+        inner = f"(TSwitch {max(tlen(p, sigw) for p in t[1])} [" + "; ".join(coq_tgt(p, sigw) for p in t[1]) + "])"
         return f"(TSlice {inner} {t[2]} {t[3]})"
     raise ValueError(k)
 
